@@ -122,7 +122,7 @@ def rule_step_summary(prog, rep):
     compare(rep, "C16.step", f"{m.relpath}:{fn.lineno}", "count_fruitless", got, want, "count_fruitless")
 
 
-def _count_fruitless_by_orderings(prog, rep, m, fn, max_len=5) -> bool:
+def _count_fruitless_by_orderings(prog, rep, m, fn, max_len=None) -> bool:
     """count_fruitless touches the losses only through comparisons (min / argmin / <), so its result on a list depends
     on the list's ORDER TYPE alone.  The function's syntax tree is evaluated (the checker's own evaluator over
     order-only tokens, arithmetic on a loss is outside the subset) on every strict ordering of every length 1..5 -
@@ -130,7 +130,10 @@ def _count_fruitless_by_orderings(prog, rep, m, fn, max_len=5) -> bool:
     after the minimum.  Ties are not part of the property (DESIGN 3 C16) and are not enumerated.  Returns False when
     the function is outside the evaluated subset (the caller compares terms instead)."""
     import itertools
+    from . import shapeexec
     from .shapeexec import Budget, Evaluator, Ord, Unsupported
+    if max_len is None:
+        max_len = 7 if shapeexec.THOROUGH[0] else 5
     site = f"{m.relpath}:{fn.lineno}"
     n_cases = 0
     for n in range(1, max_len + 1):
@@ -203,7 +206,7 @@ def rule_fit_to_data(prog, rep):
             site = f"{m.relpath}:{fn.lineno}"
             if res[0] == "holds":
                 how = (f"by partial evaluation on {res[1]} cases (every strict ordering of 0..5 validation losses x max_patience "
-                       f"0,1,2 x return_best): trains each epoch from the current parameters on the training split, validates "
+                       f"0,1,2 x return_best; 0..6 x 0,1,2,3 in the thorough tier): trains each epoch from the current parameters on the training split, validates "
                        f"the post-training parameters on the validation split, stops at the first epoch at which more than "
                        f"max_patience epochs have passed since the best and never earlier, one train and one validation record "
                        f"per epoch run, returns the parameters of the best epoch or the last ones")
@@ -356,7 +359,7 @@ def rule_variational(prog, rep):
     res = fitgrid.decide_variational(prog)
     if res is not None:
         if res[0] == "holds":
-            how = (f"by partial evaluation on {res[1]} cases (every strict ordering of 0..5 losses x return_best): one step and "
+            how = (f"by partial evaluation on {res[1]} cases (every strict ordering of 0..5 losses, 0..6 in the thorough tier, x return_best): one step and "
                    f"one record per requested step, each step from the current parameters / optimiser state, returns the "
                    f"parameters the minimum recorded loss was evaluated at, or the last ones")
             for R, keys in (("C16.count", ("variational:one-iteration-per-step", "variational:no-early-exit",
